@@ -11,6 +11,10 @@ the real code - outcome and schema digest (types, children, defaults,
 implementer table) after every operation - and validated by TLC; each load is
 also repeated against a freshly loaded copy of the schema and the two real
 outcomes compared.
+V (suite): every configuration load the repository's own test-suite performs
+is recorded (zcv.suite_plugin: description of the application schema object
+immediately before and after the call) and validated by TLC against
+spec/ZSchemaStable.tla, whose only step is Load: app' = app.
 """
 import random
 
@@ -35,6 +39,52 @@ def same_real(a, b):
     if a["r"] == "ok":
         return a["tree"] == b["tree"]
     return a["kind"] == b["kind"] and a.get("line") == b.get("line")
+
+
+def suite_schema_traces(chk):
+    """Every configuration load the repository's own test-suite performs, as a recorded execution: the description
+    of the application schema object immediately before and after the call (zcv.suite_plugin), validated by TLC
+    against ZSchemaStable (a load is the step app' = app)."""
+    import json
+    import os
+    import shutil
+    from .. import flow, suite
+    spans, tail = suite.run_suite()
+    recs = [sp for sp in (spans or []) if sp.get("schema")]
+    if not recs:
+        chk.note("suite_schema_traces", {"loads": 0, "pytest": tail})
+        return
+    d = tlc.mkscratch("zcv-sst-")
+    path = os.path.join(d, "tr.json")
+    verdicts = {}
+    try:
+        with open(path, "w") as f:
+            json.dump({"traces": [sp["schema"] for sp in recs]}, f)
+        cfg = flow.cfg_text(constants={"NTr": len(recs)}, invariants=["Verdict"], properties=["SchemaUnchanged"])
+        r = tlc.run("ZSchemaStable", cfg, on_value=lambda v: verdicts.__setitem__(v["tid"], v), workers=2,
+                    timeout=900, env={"TRACE_FILE": path})
+    finally:
+        shutil.rmtree(d, ignore_errors=True)
+    chk.add_tlc(r)
+    if r.violation:
+        from ..core import MachineryError
+        raise MachineryError("TLC: %s\n%s" % (r.violation, r.error_text[:2000]))
+    tally = {}
+    for i, sp in enumerate(recs, 1):
+        chk.evaluations += 1
+        chk.traces += 1
+        v = verdicts.get(i)
+        clause = v["clause"] if v else "no-behaviour-of-the-specification-matches"
+        tally[clause] = tally.get(clause, 0) + 1
+        if clause != "accepted":
+            chk.disagree({"clause": "suite: " + clause, "direction": "V", "test": sp["test"], "entry": sp["entry"],
+                          "ended": sp["ended"], "implementers_before": sp["schema"]["before"]["impl"],
+                          "implementers_after": sp["schema"]["after"]["impl"],
+                          "class": {"clause": "suite: " + clause}})
+    chk.nontrivial_count += len({json.dumps(sp["schema"]["before"], sort_keys=True) for sp in recs})
+    chk.note("suite_schema_traces", {"loads": len(recs), "verdicts": tally,
+                                     "ended": {k: sum(1 for sp in recs if (sp["ended"] == "returned") == (k == "returned"))
+                                               for k in ("returned", "raised")}, "pytest": tail})
 
 
 def run(chk):
@@ -111,6 +161,7 @@ def run(chk):
                           "class": {"clause": "differs-from-fresh-schema", "lenient": v.get("lenient"),
                                     "outcome_follows_leak": bool(v.get("leakused")),
                                     "fresh_copy": "rejects" if got["r"] == "err" else "accepts"}})
+        suite_schema_traces(chk)
         chk.sample({"session": [sc.items[i]["files"]["d/main.conf"] for i in sessions[0]["_items"]],
                     "ops": [st["op"] for st in sessions[0]["steps"]]})
         chk.note("sessions", len(sessions))
